@@ -198,7 +198,7 @@ _REACH = [k * NT + T_REORDER for k, (mi, bi, n) in enumerate(BASES)
           if MODELS[mi][0] == 'plain' and bi == 0]
 
 CONDITIONS = [
-    {'fn': 'pairs', 'slices': ALL, 'quick_slices': QUICKS, 'quick': 220,
+    {'fn': 'pairs', 'slices': ALL, 'quick_slices': QUICKS, 'quick': 330,
      'thorough': 900,
      'bound': 'one slice per (model, base document, transformation): the '
               'base document with at most one mutation (retag with a FREE '
